@@ -79,8 +79,9 @@ def run(sdir, props, tier):
         sh("git checkout -- .", cwd=REPO)
         sh("rm -rf /verif/replays")
     meta.setdefault("checks_run", {})[tier] = results
-    meta["detected_by"] = sorted(set(meta.get("detected_by", [])) |
-                                 {p for p, r in results.items() if r["rc"] == 1})
+    # from this run only: an earlier detection does not carry over to changed checks
+    meta["detected_by"] = sorted(p for p, r in results.items() if r["rc"] == 1)
+    meta["evaluated_on"] = sh("git rev-parse --short HEAD", cwd=REPO)[1].strip()
     json.dump(meta, open(meta_p, "w"), indent=1)
     return 0
 
